@@ -15,6 +15,7 @@
 #include <algorithm>
 #include <array>
 #include <utility>
+#include <type_traits>
 #include <sys/uio.h>
 #include <fcntl.h>
 #include <unistd.h>
@@ -50,7 +51,7 @@ static const char *ansname[] = { "->0", "->Default", "->Default|Fail,id:=0", "->
 enum { F_DEFAULT = mpt::event::Default, F_FAIL = mpt::event::Fail, F_TERM = mpt::event::Terminate };
 
 // ---------------------------------------------------------------- alphabet
-enum Kind { DSET, XSET, DCLR, CSET, CCLR, EMIT, EMSG, EMSG_EMPTY, ENULL, HASH, HASH_BAD, SETERR, SETDEF, FINI, XRESERVE, XRESERVE_RAW,
+enum Kind { DSET, XSET, DCLR, CSET, CCLR, EMIT, EMSG, EMSG_EMPTY, ENULL, HASH, HASH_BAD, SETERR, SETDEF, FINI, XRESERVE, XRESERVE_RAW, DCOPY, CCOPY,
             W_RESERVE, W_REL, W_SET, W_CLEAR };
 struct Letter { Kind k; uint64_t id; int ans; int shape; std::string name; std::string sig; };
 
@@ -104,6 +105,10 @@ static void build_letters(int alpha, bool tied, std::vector<Letter> &L)
 	L.push_back(Letter{SETERR, 0, 0, 0, "dispatch::set_error(NULL)", "set_error"});
 	for (uint64_t id : R) L.push_back(Letter{SETDEF, id, 0, 0, "dispatch::set_default(" + idname(id) + ")", "set_default"});
 	L.push_back(Letter{FINI, 0, 0, 0, "dispatch_fini", "dispatch_fini"});
+	// value copies of the C++ objects (letters are only enabled while the classes are copyable)
+	L.push_back(Letter{DCOPY, 0, 0, 0, "{ dispatch copy(d); } (copy-construct, destroy the copy)", "dispatch(copy)"});
+	L.push_back(Letter{DCOPY, 0, 0, 1, "{ dispatch copy; copy = d; } (assign, destroy the copy)", "dispatch(copy)"});
+	for (uint64_t id : R) L.push_back(Letter{CCOPY, id, 0, 0, "{ command c(*d.handler(" + idname(id) + ")); } (copy-construct the entry, destroy the copy)", "command(copy)"});
 	if (th) { L.push_back(Letter{XRESERVE, 1, 0, 0, "dispatch.reserve(width 1)", "command_reserve"}); L.push_back(Letter{XRESERVE, 2, 0, 0, "dispatch.reserve(width 2)", "command_reserve"});
 	          L.push_back(Letter{XRESERVE_RAW, 1, 0, 0, "dispatch.reserve(width 1), slot not activated", "command_reserve"}); }
 }
@@ -146,7 +151,16 @@ struct ReplyCtx : public mpt::reply_context {
 	ReplyCtx() : n(0) { }
 	int reply(const mpt::message *) override { ++n; return 0; }
 };
-struct RawArr { mpt::buffer *_buf; };   // C view of MPT_STRUCT(array) (MPT_ARRAY_INIT = { 0 })
+struct RawArr { mpt::buffer *_buf; };
+// copies are only compiled into real scenarios while the classes are copyable (cf. C13 copy_scenario)
+template <typename D> static typename std::enable_if<std::is_copy_constructible<D>::value && std::is_copy_assignable<D>::value, bool>::type
+dispatch_copy(D *d, int how) { if (how) { D b; b = *d; } else { D b(*d); } return true; }
+template <typename D> static typename std::enable_if<!(std::is_copy_constructible<D>::value && std::is_copy_assignable<D>::value), bool>::type
+dispatch_copy(D *, int) { return false; }
+template <typename C> static typename std::enable_if<std::is_copy_constructible<C>::value, bool>::type
+command_copy(C *c) { C b(*c); return true; }
+template <typename C> static typename std::enable_if<!std::is_copy_constructible<C>::value, bool>::type
+command_copy(C *) { return false; }   // C view of MPT_STRUCT(array) (MPT_ARRAY_INIT = { 0 })
 
 struct Sys {
 	Run &r;
@@ -667,9 +681,12 @@ bool Sys::apply_disp(const Letter &l)
 	case SETDEF: {
 		setcls(reg.count(l.id) ? "registered" : "unregistered");
 		bool ok = LIB(d->set_default(l.id));
-		if (ok != (bool) reg.count(l.id)) cnt("set_default answer differs from 'id is registered' (not flagged)");
+		if (!ok && reg.count(l.id)) cnt("set_default refuses a registered id (refusal, not flagged)");
 		if (ok) def = l.id;
 		if (!settle()) return false;
+		// an accepted default id must have a handler: otherwise the next default event reaches neither a handler nor the fallback
+		if (ok && !reg.count(l.id) && !rsv.count(l.id)) return fail("accepted-unregistered-id", "set_default(" + idname(l.id) + ") reports success although no handler is registered for that id: the next emit(NULL) is delivered nowhere");
+		if (ok) cnt("path:set_default accepted for a registered id");
 		return lookup_ok(); }
 	case FINI: {
 		setcls(reg.empty() && fb < 0 ? "nothing-registered" : "handlers-registered");
@@ -678,6 +695,22 @@ bool Sys::apply_disp(const Letter &l)
 		LIB((mpt::mpt_dispatch_fini(d), 0));
 		if (!exp.empty()) cnt("path:end-of-life on fini");
 		reg.clear(); rsv.clear(); def = 0; fb = -1; had_free = had_growth = false;
+		if (!settle()) return false;
+		return lookup_ok(); }
+	case DCOPY: {
+		setcls(reg.empty() && fb < 0 ? "nothing-registered" : "handlers-registered");
+		// a destroyed copy must leave the original alone: nobody is called, every registration stays
+		if (!LIB(dispatch_copy<mpt::dispatch>(d, l.shape))) { cnt("dispatch is not copyable (nothing to check)"); return false; }
+		cnt("dispatch copies checked");
+		if (!settle()) return false;
+		return lookup_ok(); }
+	case CCOPY: {
+		if (!reg.count(l.id)) return false;   // not enabled
+		setcls("registered");
+		mpt::command *c = d->handler(l.id);
+		if (!c) return fail("lookup-mismatch", "no handler found for registered id " + idname(l.id));
+		if (!LIB(command_copy<mpt::command>(c))) { cnt("command is not copyable (nothing to check)"); return false; }
+		cnt("command copies checked");
 		if (!settle()) return false;
 		return lookup_ok(); }
 	case XRESERVE: case XRESERVE_RAW: {
